@@ -106,6 +106,7 @@ class Interp:
         self.max_steps = max_steps
         self.follow = follow
         self.trace = []        # uninterpreted calls, in order
+        self.symbolic_ops = False
 
     # ---------------------------------------------------------------- entry
     def run(self, fnode, args, closure_env=None):
@@ -299,6 +300,8 @@ class Interp:
 
     def binop(self, op, a, b):
         if isinstance(a, Sym) or isinstance(b, Sym):
+            if self.symbolic_ops:
+                return ('op', type(op).__name__, a, b)
             raise Unsupported('arithmetic on opaque value')
         try:
             if isinstance(op, ast.Add):
@@ -565,6 +568,7 @@ class Interp:
                 return r[0]
             sub = Interp(self.repo, m.module, self.oracle,
                          self.isinstance_oracle, self.max_steps)
+            sub.symbolic_ops = self.symbolic_ops
             sub.steps, sub.trace = self.steps, self.trace
             out = sub.apply(m.node, {}, ([recv] if recv is not None
                                          else []) + args, kwargs)
@@ -579,6 +583,7 @@ class Interp:
                 raise Unsupported('call of ' + f.key)
             sub = Interp(self.repo, f.module, self.oracle,
                          self.isinstance_oracle, self.max_steps)
+            sub.symbolic_ops = self.symbolic_ops
             sub.steps = self.steps
             sub.trace = self.trace
             out = sub.apply(f.node, {}, args, kwargs)
